@@ -472,3 +472,11 @@ def m_box_into_vec(c):
     if not isinstance(v, Seq):
         raise Unsupported('box_assume_init_into_vec_unsafe: not an array')
     return Seq(v.elem_ty, list(v.elems))
+
+
+@pattern(r'^<(Option|Vec|String) as Clone>::clone_from$')
+def m_clone_from(c):
+    tgt = c.args[0]
+    src = deref(c.st, c.args[1])
+    tgt.store(clone_deep(c.st, src), c.st)
+    return UNIT
